@@ -364,6 +364,33 @@ def install():
     if hasattr(pframe, "sanitize_array"):
         pframe.sanitize_array = sanitize_array
 
+    # pandas: Series / Series on object columns that mix Sym cells and plain floats must divide like float64 cells
+    # (x / 0.0 -> inf / nan), not like Python floats (ZeroDivisionError)
+    import pandas.core.computation.expressions as pexpr
+
+    o["_evaluate_standard"] = pexpr._evaluate_standard
+
+    def _safe_div1(x, y):
+        try:
+            return x / y
+        except ZeroDivisionError:
+            x = float(x)
+            return math.nan if (x == 0 or x != x) else math.copysign(math.inf, x)
+
+    _usafe_div = np.frompyfunc(_safe_div1, 2, 1)
+
+    def _evaluate_standard(op, op_str, a, b):
+        if op_str == "/" and (getattr(a, "dtype", None) == object or getattr(b, "dtype", None) == object):
+            if getattr(op, "__name__", "") == "rtruediv":
+                a, b = b, a
+            return _usafe_div(a, b)
+        return o["_evaluate_standard"](op, op_str, a, b)
+
+    pexpr._evaluate_standard = _evaluate_standard
+    if getattr(pexpr, "_evaluate", None) is o["_evaluate_standard"]:
+        pexpr._evaluate = _evaluate_standard
+        o["_evaluate_was_standard"] = True
+
     # scipy.stats.norm.ppf(q, loc, scale) = loc + scale * ppf(q)   (q concrete)
     from scipy import stats
 
@@ -404,6 +431,11 @@ def uninstall():
     numpy.max = numpy.amax = o["amax"]
     nanops._ensure_numeric = o["_ensure_numeric"]
     stats.norm.ppf = o["norm_ppf"]
+    import pandas.core.computation.expressions as pexpr
+
+    pexpr._evaluate_standard = o["_evaluate_standard"]
+    if o.get("_evaluate_was_standard"):
+        pexpr._evaluate = o["_evaluate_standard"]
     import pandas.core.construction as pcc
     import pandas.core.frame as pframe
 
